@@ -24,6 +24,13 @@ const SocketRaw = 1
 
 type OptInterface string
 
+// OptPollTimeout: how long a read waits for a frame before it returns ErrTimeout (0: for ever),
+// as in gopacket/afpacket.
+type OptPollTimeout time.Duration
+
+// ErrTimeout is what a read returns when the poll timeout expired (gopacket/afpacket.ErrTimeout).
+var ErrTimeout = errors.New("packet poll timeout expired")
+
 type Frame struct {
 	T      int64 // virtual time of the write
 	Step   int
@@ -41,6 +48,8 @@ type TPacket struct {
 	rx        *vs.Chan[rxFrame]
 	closed    *vs.Chan[struct{}]
 	isClosed  bool
+	poll      time.Duration
+	inRead    int // reads in flight
 	Delivered int
 	krx, ktx  int // KernelBPF: a unix datagram pair whose receiving end carries the same filter
 	kbuf      []byte
@@ -121,6 +130,9 @@ func NewTPacket(opts ...interface{}) (*TPacket, error) {
 	for _, o := range opts {
 		if i, ok := o.(OptInterface); ok {
 			t.iface = string(i)
+		}
+		if d, ok := o.(OptPollTimeout); ok {
+			t.poll = time.Duration(d)
 		}
 	}
 	if err := W.OpenErr[t.iface]; err != nil {
@@ -231,17 +243,46 @@ func (t *TPacket) Close() {
 	})
 }
 
+// Reads follow gopacket/afpacket on Linux. Close unmaps the ring and closes the descriptor; it does
+// NOT wake a read that is waiting in poll(2): that read stays parked until a frame passing the
+// filter arrives (the kernel keeps the socket alive while a poll holds it) or until its poll
+// timeout, if one was set, expires. A read that gets a frame after Close touches the unmapped ring:
+// the process dies with SIGSEGV. A read started after Close indexes the nil ring: it dies as well.
+const crashInFlight = "fatal error: unexpected signal during runtime execution [signal SIGSEGV: segmentation violation] in afpacket.(*TPacket).ZeroCopyReadPacketData: a frame arrived for a read that was waiting in poll when the socket was closed and its ring unmapped"
+const crashAfterClose = "panic: runtime error: index out of range in afpacket.(*TPacket).getTPacketHeader: read on a packet socket after Close (the ring is unmapped)"
+
 func (t *TPacket) ZeroCopyReadPacketData() ([]byte, gopacket.CaptureInfo, error) {
-	r, c := t.rx.RecvCase(), t.closed.RecvCase()
-	switch vs.Select(false, c, r) {
-	case 1:
-		d := r.V.data
-		W.Reads = append(W.Reads, Read{T: vs.VNow(), Thread: vs.CurThread(), Sock: t.id, Data: append([]byte{}, d...)})
-		// like afpacket: Length is the length on the wire, CaptureLength what the filter let through
-		return d, gopacket.CaptureInfo{Timestamp: vs.Now(), CaptureLength: len(d), Length: r.V.wirelen}, nil
-	default:
-		return nil, gopacket.CaptureInfo{}, errors.New("read: use of closed file")
+	if t.isClosed {
+		panic(crashAfterClose)
 	}
+	t.inRead++
+	defer func() { t.inRead-- }()
+	r := t.rx.RecvCase()
+	var idx int
+	if t.poll > 0 {
+		idx = vs.Select(false, r, vs.After(t.poll).RecvCase())
+	} else {
+		idx = vs.Select(false, r)
+	}
+	if idx == 1 {
+		return nil, gopacket.CaptureInfo{}, ErrTimeout
+	}
+	if t.isClosed {
+		panic(crashInFlight)
+	}
+	d := r.V.data
+	W.Reads = append(W.Reads, Read{T: vs.VNow(), Thread: vs.CurThread(), Sock: t.id, Data: append([]byte{}, d...)})
+	// like afpacket: Length is the length on the wire, CaptureLength what the filter let through
+	return d, gopacket.CaptureInfo{Timestamp: vs.Now(), CaptureLength: len(d), Length: r.V.wirelen}, nil
+}
+
+// ReadPacketData is the copying form.
+func (t *TPacket) ReadPacketData() ([]byte, gopacket.CaptureInfo, error) {
+	d, ci, err := t.ZeroCopyReadPacketData()
+	if err != nil {
+		return nil, ci, err
+	}
+	return append([]byte(nil), d...), ci, nil
 }
 
 func (t *TPacket) WritePacketData(p []byte) (err error) {
@@ -306,7 +347,7 @@ func (t *TPacket) Iface() string { return t.iface }
 func Inject(frame []byte) int {
 	n := 0
 	for _, s := range W.Socks {
-		if s.isClosed {
+		if s.isClosed && s.inRead == 0 {
 			continue
 		}
 		keep := s.Accepts(frame)
@@ -315,7 +356,7 @@ func Inject(frame []byte) int {
 		}
 		d := make([]byte, keep)
 		copy(d, frame)
-		if s.rx.Push(rxFrame{d, len(frame)}) {
+		if s.rx.Push(rxFrame{d, len(frame)}) && !s.isClosed {
 			s.Delivered++
 			n++
 		}
